@@ -22,7 +22,7 @@ namespace avel {
         // -ctors
         //=================================================
 
-        explicit Denominator(Denom8i d):
+        explicit Denominator(Denom64i d):
             mp(d.mp),
             d_sign(d.d_sign),
             sh(d.sh),
